@@ -56,6 +56,7 @@ import itertools
 import os
 import posixpath
 import tempfile
+import re
 import zipfile
 
 from lxml import etree
@@ -314,7 +315,7 @@ def _touch_all(doc):
 
 # =============================================================================================== C03
 C03_HISTORIES = ["none", "read_all", "body", "style", "meta", "add_file", "del_part", "setpart_fresh", "setpart_cached",
-                 "setpart_read"]
+                 "setpart_read", "object_edit"]
 C03_CONFIGS = [("zip", "path"), ("zip", "bytesio"), ("folder", "path")]
 
 
@@ -354,6 +355,10 @@ def _deletable_part(files):
                    posixpath.basename(n) not in ("content.xml", "styles.xml", "meta.xml", "settings.xml", "manifest.xml"))
     pref = [n for n in cands if n.startswith("Thumbnails/")]
     return (pref or cands or [None])[0]
+
+
+class _NotInDomain(Exception):
+    pass
 
 
 def _c03_edit(doc, hist, info, td):
@@ -404,6 +409,14 @@ def _c03_edit(doc, hist, info, td):
         doc.del_part(part)
         info["removed"] = {part}
         return set(), lambda files: (part not in files, f"deleted part {part!r} is still in the saved package")
+    if hist == "object_edit":
+        # an edit inside an embedded object (its own content.xml, reached through Document.get_part)
+        names = sorted(n for n in info["files"] if re.fullmatch(r"Object \d+/content\.xml", n))
+        if not names:
+            raise _NotInDomain("no embedded object in this source")
+        part = doc.get_part(names[0])
+        part.root.append(Paragraph(MARK))
+        return set(), lambda files: (_find_text(files[names[0]], MARK), f"{MARK!r} not found in saved {names[0]}")
     if hist in ("setpart_fresh", "setpart_cached", "setpart_read"):
         raw = info["files"]["content.xml"].replace(b"</office:body>", RAW_COMMENT + b"</office:body>")
         assert raw != info["files"]["content.xml"]
@@ -431,6 +444,10 @@ def _c03_call(con, fn, argvals, labels):
             doc, info = _open_source(src)
             late = hist.endswith("@2")
             added, check = (set(), None) if late else _c03_edit(doc, hist, info, td)
+        except _NotInDomain as e:
+            res.in_domain = False
+            res.outcome = str(e)
+            return res
         except Exception as e:  # noqa
             res.checked = 1
             fail(("ensures:no_error", f"open/edit raised {type(e).__name__}: {e}"))
